@@ -110,14 +110,15 @@ JOPS = {}
 
 
 def register_json_ops():
+    """every harness/implops*.py contributes JOPS (json ops) and OPS (token ops)"""
+    import importlib
     here = os.path.dirname(os.path.abspath(__file__))
     sys.path.insert(0, os.path.dirname(here))
-    try:
-        from harness import implops
-        JOPS.update(implops.JOPS)
-        OPS.update(getattr(implops, "OPS", {}))
-    except ImportError:
-        pass
+    for f in sorted(os.listdir(here)):
+        if f.startswith("implops") and f.endswith(".py"):
+            mod = importlib.import_module("harness." + f[:-3])
+            JOPS.update(getattr(mod, "JOPS", {}))
+            OPS.update(getattr(mod, "OPS", {}))
 
 
 def main():
